@@ -13,7 +13,8 @@ EXPLANATION = (
     "exactly one reply frame per request: a reply emitted from Drop must be dominated by a 'not yet replied' "
     "edge on state that reply() writes (or reply must consume self).")
 EXPLANATION_ADDED = "R1 also requires the requester's queue/oneshot failures to be mapped to Closed; R2 distinguishes an awaited hand-off to the bind queue from try_send; (R4) the bind queue is sized by bind_buffer_size."
-EXPLANATION = EXPLANATION + " Added while testing against seeded changes: " + EXPLANATION_ADDED
+EXPLANATION_ADDED2 = " R2 also covers the Connect/in-use cell (shared id space) and the dispatcher's ignore_bind constants; R3 also requires a fresh request's state flag to start false."
+EXPLANATION = EXPLANATION + " Added while testing against seeded changes: " + EXPLANATION_ADDED + EXPLANATION_ADDED2
 ASSUMPTIONS = ["tokio oneshot delivers at most one value"]
 NOT_DECIDED = "independence of concurrent requests under all interleavings"
 BR = "penguin_mux::BindRequest"
